@@ -356,6 +356,38 @@ class Prop(object):
             r.outcomes['wrongpass:' + oc] += 1
             if oc != 'error':
                 r.viol('must-raise', dict(tags, grp='passphrase'), case, 'wrong passphrase %r decrypted the message' % (w,))
+        # passphrases longer than the octet count of the iterated S2K (coded count 0 = 1024 octets incl. the salt): the whole passphrase counts, a wrong
+        # one that agrees on the first 1016 octets is still wrong
+        from pgpy.constants import SymmetricKeyAlgorithm, HashAlgorithm, CompressionAlgorithm
+        long_pw = ''.join(chr(0x21 + (i * 7) % 90) for i in range(1100))
+        R.set_s2k_count(0)
+        try:
+            lm = pgpy.PGPMessage.new(BODIES['b17'], compression=CompressionAlgorithm.Uncompressed, format='b')
+            lblob = bytes(lm.encrypt(long_pw, cipher=SymmetricKeyAlgorithm[case['cipher']], hash=HashAlgorithm.SHA256))
+            sk = bytes(range(1, 1 + SymmetricKeyAlgorithm[case['cipher']].key_size // 8))
+        finally:
+            R.set_s2k_count(96)
+        r.states += 1
+        r.transitions += 1
+        try:
+            ok = A.msg_view(pgpy.PGPMessage.from_blob(lblob).decrypt(long_pw))['data'] == BODIES['b17']
+        except Exception:
+            ok = False
+        r.outcomes['longpass:' + ('base-ok' if ok else 'base-fails')] += 1
+        if not ok:
+            r.viol('base-fails', dict(tags, grp='long-passphrase'), case, 'message encrypted with a 1100-octet passphrase (S2K count 1024) does not decrypt with it')
+        for wname, w in (('tail-changed', long_pw[:1016] + 'X' * 84), ('tail-cut', long_pw[:1016]), ('one-more', long_pw + 'x'), ('one-less', long_pw[:-1]),
+                         ('last-changed', long_pw[:-1] + '~'), ('octet-1017-changed', long_pw[:1016] + '~' + long_pw[1017:])):
+            r.states += 1
+            r.transitions += 1
+            try:
+                pgpy.PGPMessage.from_blob(lblob).decrypt(w)
+                oc = 'decrypted'
+            except Exception:
+                oc = 'error'
+            r.outcomes['wrongpass:' + oc] += 1
+            if oc != 'error':
+                r.viol('must-raise', dict(tags, grp='long-passphrase'), case, 'wrong passphrase (%s: agrees with the right one on its first 1016 octets) decrypted the message' % wname)
         kinds = ['rsa2048', 'cv25519', 'ecdh-p256', 'ecdh-p384', 'rsa1024']
         others = ['rsa2048-other', 'cv25519-other', 'rsa3072', 'ecdh-p521', 'ecdh-k256', 'rsa2048', 'cv25519']
         for rc in kinds:
